@@ -286,6 +286,7 @@ def random_cases(ctx, st, pt):
 def run(ctx):
     st = State()
     pt = install(ctx, st)
+    ctx.enable_disturb(pt, 0.01)     # other legitimate library calls interleaved between cases (vf.gen.disturb)
     exhaustive(ctx, st, pt)
     random_cases(ctx, st, pt)
 
